@@ -9,6 +9,7 @@ import LccModel.Proto
 import LccModel.Model.Loader
 import LccModel.Model.LoaderSpec
 import LccModel.Model.DirScan
+import LccModel.Model.ParamSource
 open Lean LccModel LccModel.Proto LccModel.Loader LccModel.DirScan
 
 def getInt (j : Json) (k : String) : Except String Int := do
@@ -123,8 +124,15 @@ def parseTest (j : Json) : Except String TestDecl := do
     | .error _ => pure none
     | .ok .null => pure none
     | .ok p => do
-      let sets ← (← getArrD p "sets").mapM parseParams
-      pure (some (sets, ← parseNaming p)))
+      -- the source as written: `header` (a string: `parseHeader` finds the names) / `names` (tuple or list header) with
+      -- `rows`, or the dicts themselves (`sets`); what the loader expands is `Source.sets`
+      let rows ← (← getArrD p "rows").mapM (fun r => do (← r.getArr?).toList.mapM parsePVal)
+      let src ← (match p.getObjVal? "header" with
+        | .ok (.str h) => pure (LccModel.ParamSource.Source.csvStr h rows)
+        | _ => match p.getObjVal? "names" with
+          | .ok ns => do pure (LccModel.ParamSource.Source.csvSeq (← (← ns.getArr?).toList.mapM (fun x => x.getStr?)) rows)
+          | .error _ => do pure (LccModel.ParamSource.Source.dicts (← (← getArrD p "sets").mapM parseParams)))
+      pure (some (src.sets, ← parseNaming p)))
   pure { attr := ← getStr j "attr", name := ← getOptStr j "name", desc := ← getOptStr j "desc",
          rank := ← getInt j "rank", md := ← parseMeta j, vis := ← parseVis j,
          disabled := ← parseDisabled j, param }
